@@ -590,7 +590,7 @@ func TestC36(t *testing.T) {
 	c.Floor("grants_exhausted", 1)
 	c.Floor("allocations_exhausted", 4)
 	c.Floor("sentinel_amount_accepted", 3)
-	n := c.N(6, 12)
+	n := c.N(6, 40)
 	for i := 0; i < n; i++ {
 		if c.SkipCase(i) {
 			continue
